@@ -42,6 +42,7 @@ func main() {
 		os.Exit(2)
 	}
 	r := evid.NewRun(id)
+	r.Level = levels[id]
 	if len(os.Args) >= 4 && os.Args[2] == "--replay" {
 		os.Exit(replayFile(r, os.Args[3]))
 	}
